@@ -1,23 +1,35 @@
 Require Extraction.
 Require Import ExtrOcamlBasic.
 From Coq Require Import ZArith List.
+Require Import Cspuz.Lib.PyErr.
+Require Import Cspuz.Core.Expr.
+Require Import Cspuz.Core.Program.
 Require Import Cspuz.Puzzle.PuzzleBase.
 Require Import Cspuz.Puzzle.Rules_akari.
 Require Import Cspuz.Puzzle.Rules_aquarium.
+Require Import Cspuz.Puzzle.Rules_building.
+Require Import Cspuz.Puzzle.Rules_castle_wall.
+Require Import Cspuz.Puzzle.Rules_compass.
 Require Import Cspuz.Puzzle.Rules_creek.
+Require Import Cspuz.Puzzle.Rules_doppelblock.
 Require Import Cspuz.Puzzle.Rules_fillomino.
+Require Import Cspuz.Puzzle.Rules_fivecells.
 Require Import Cspuz.Puzzle.Rules_geradeweg.
 Require Import Cspuz.Puzzle.Rules_gokigen.
 Require Import Cspuz.Puzzle.Rules_heyawake.
+Require Import Cspuz.Puzzle.Rules_lits.
 Require Import Cspuz.Puzzle.Rules_masyu.
 Require Import Cspuz.Puzzle.Rules_norinori.
 Require Import Cspuz.Puzzle.Rules_nurikabe.
 Require Import Cspuz.Puzzle.Rules_nurimisaki.
 Require Import Cspuz.Puzzle.Rules_putteria.
+Require Import Cspuz.Puzzle.Rules_shakashaka.
 Require Import Cspuz.Puzzle.Rules_simpleloop.
 Require Import Cspuz.Puzzle.Rules_slitherlink.
 Require Import Cspuz.Puzzle.Rules_star_battle.
 Require Import Cspuz.Puzzle.Rules_sudoku.
+Require Import Cspuz.Puzzle.Rules_view.
 Require Import Cspuz.Puzzle.Rules_yajilin.
 Require Import Cspuz.Puzzle.Rules_yinyang.
-Extraction "model.ml" Z.add Nat.add rules_akari answers_akari rules_aquarium answers_aquarium rules_creek answers_creek rules_fillomino answers_fillomino rules_geradeweg answers_geradeweg rules_gokigen answers_gokigen rules_heyawake answers_heyawake rules_masyu answers_masyu rules_norinori answers_norinori rules_nurikabe answers_nurikabe rules_nurimisaki answers_nurimisaki rules_putteria answers_putteria rules_simpleloop answers_simpleloop rules_slitherlink answers_slitherlink rules_star_battle answers_star_battle rules_sudoku answers_sudoku rules_yajilin answers_yajilin rules_yinyang answers_yinyang.
+Require Import Cspuz.Puzzle.Sudoku.
+Extraction "model.ml" Z.add Nat.add pyerr_code empty_state rules_akari answers_akari rules_aquarium answers_aquarium rules_building answers_building rules_castle_wall answers_castle_wall rules_compass answers_compass rules_creek answers_creek rules_doppelblock answers_doppelblock rules_fillomino answers_fillomino rules_fivecells answers_fivecells rules_geradeweg answers_geradeweg rules_gokigen answers_gokigen rules_heyawake answers_heyawake rules_lits answers_lits rules_masyu answers_masyu rules_norinori answers_norinori rules_nurikabe answers_nurikabe rules_nurimisaki answers_nurimisaki rules_putteria answers_putteria rules_shakashaka answers_shakashaka rules_simpleloop answers_simpleloop rules_slitherlink answers_slitherlink rules_star_battle answers_star_battle rules_sudoku answers_sudoku rules_view answers_view rules_yajilin answers_yajilin rules_yinyang answers_yinyang solve_sudoku_model.
